@@ -33,6 +33,9 @@ CHECKS = {
     "C03": ("exploration", "runtime monitoring: reference-model oracle (ResponderModel) over the real QueryHandler results and over replies captured on the simulated wire, across register/update/unregister histories",
             "For every registry state reached by random register/update/unregister sequences, all 1-question queries over registered/re-cased/unregistered names x 8 types, multi-question queries and known-answer boundary lists are answered by the real QueryHandler (and a sample through the simulated network) and compared with the model: exact answer set, TTLs, allowed additionals, no repeated records.",
             "ResponderModel in vlib/models.py is the oracle; NSEC owner compared per service; ANY-on-host and NSEC known answers soundness only.", "2/C03"),
+    "C04": ("exploration", "runtime monitoring: online trace checker on ServiceListener callbacks ((A R)* A? per instance) plus live-set == cache invariant at quiescent points, in the virtual-time simulator",
+            "Generated histories of injected responses and clock advances (real purge timer) against real AsyncServiceBrowsers; callbacks are checked online for alternation, for agreement with the cached PTR set at every quiescent point, and for visibility of the triggering datagram's records inside add_service.",
+            "Stays inside the stated restrictions (exact owner spelling, unrelated types, no case-variants in one datagram, no browser start over expired-unpurged PTRs).", "2/C04"),
 }
 
 NOT_YET = {}
